@@ -597,6 +597,26 @@ func (t *Taint) flowCall(v ssa.Value, call ssa.CallInstruction) {
 	if !c.IsInvoke() && c.Value == v {
 		// calling a tainted closure/function value: nothing flows by itself
 	}
+	// a value taken out of a shared container of the standard library (sync.Map, atomic.Value/Pointer) is memory every
+	// other user of the container can obtain as well (sync.Pool hands out exclusive ownership until Put: see R-POOL)
+	if sc := c.StaticCallee(); sc != nil && len(c.Args) > 0 && c.Args[0] == v && sharedContainerGetter(sc) {
+		if val, ok := call.(ssa.Value); ok {
+			why := &taintWhy{from: v, note: "taken out of a shared " + sc.Signature.Recv().Type().String(), site: call}
+			if _, isTuple := val.Type().(*types.Tuple); isTuple {
+				// (value, ok): the value is result 0
+				if refs := val.Referrers(); refs != nil {
+					for _, ref := range *refs {
+						if ex, ok := ref.(*ssa.Extract); ok && ex.Index == 0 {
+							t.mark(ex, why)
+						}
+					}
+				}
+			} else {
+				t.mark(val, why)
+			}
+		}
+		return
+	}
 	for _, callee := range callees {
 		if t.scope != nil && callee.Blocks != nil && !t.scope[callee] {
 			continue
@@ -855,4 +875,22 @@ func mutationsOf(f *ssa.Function) []mutation {
 		}
 	}
 	return out
+}
+
+// sharedContainerGetter: methods of the standard library's concurrent containers that hand out a stored value.
+func sharedContainerGetter(f *ssa.Function) bool {
+	recv := f.Signature.Recv()
+	if recv == nil || f.Pkg == nil && f.Origin() == nil {
+		return false
+	}
+	n := namedOf(recv.Type())
+	if n == nil || n.Obj().Pkg() == nil {
+		return false
+	}
+	switch n.Obj().Pkg().Path() + "." + n.Obj().Name() + "." + f.Name() {
+	case "sync.Map.Load", "sync.Map.LoadOrStore", "sync.Map.LoadAndDelete", "sync.Map.Swap",
+		"sync/atomic.Value.Load", "sync/atomic.Value.Swap", "sync/atomic.Pointer.Load", "sync/atomic.Pointer.Swap":
+		return true
+	}
+	return false
 }
